@@ -82,6 +82,9 @@ var declPool = []poolEntry{
 	{Text: "func Tight$U() (r int) {\n\tdefer func() { r++ }()\n\tfor i := 0; i < 3; i++ {\n\t\tr += i\n\t}\n\treturn\n}\n"},
 	{Text: "\n\t  \t\nvar    Odd$U   =   `raw\n  string`\n"},
 	{Text: "\nfunc (v $T) Val$U() string {\n\treturn \"v\"\n}\n", Method: true},
+	// whitespace only gofumpt (not gofmt) normalises: the file is canonical only if gofumpt really ran
+	{Text: "\nfunc Loose$U() int {\n\n\tx := 1\n\n\treturn x\n\n}\n"},
+	{Text: "\nvar Comp$U = []int{\n\t1,\n\t2,\n}\n\nfunc After$U() {}\n"},
 	{Text: "\ntype Nt$U struct {\n\tA int `json:\"a\"`\n}\n", DeclType: true},
 	{Text: "\nvar Ref$U ", Ref: "container/list.List"},
 	{Text: "\nvar Ref$U *", Ref: "container/ring.Ring"},
